@@ -688,6 +688,8 @@ class Interp:
                 return True
             if a.cls is not b.cls:
                 return False
+            if "__encoded__" in a.fields and "__encoded__" in b.fields:
+                return self.py_eq(a.fields["__encoded__"], b.fields["__encoded__"])
             if _is_enum_member_obj(a):
                 return a is b
             if _has_value_eq(a.cls):
@@ -815,6 +817,10 @@ class Interp:
                 if a is not None and a.items:
                     return self.py_str(a.items[0])
                 return ""
+            if "__of__" in v.fields and v.cls.__name__ == "date":
+                # str(date) == date.isoformat()
+                import datetime as _dt
+                return self.lib[_dt.date.isoformat](self, [v], {})
             if "__text__" in v.fields and v.cls.__name__ == "UUID":
                 from . import libmodels
                 return libmodels.uuid_str(self, v)
@@ -1012,7 +1018,7 @@ class Interp:
                 else:
                     raise Unsupported("del target")
             return
-        if isinstance(st, (ast.FunctionDef,)):
+        if isinstance(st, (ast.FunctionDef, ast.AsyncFunctionDef)):
             fr.locals[st.name] = SFunc("closure", (st, fr), name=st.name)
             return
         if isinstance(st, ast.With):
@@ -1745,6 +1751,9 @@ class Interp:
     def e_Starred(self, node, fr):
         raise Unsupported("starred expression")
 
+    def e_Await(self, node, fr):
+        return self.eval(node.value, fr)     # coroutines are run to completion at the await (no interleaving modelled)
+
     def e_NamedExpr(self, node, fr):
         v = self.eval(node.value, fr)
         self.assign(node.target, v, fr)
@@ -1785,6 +1794,9 @@ class Interp:
         for base in mro[idx + 1:]:
             if name in base.__dict__:
                 static = base.__dict__[name]
+                if name == "__init__" and base.__module__ == "builtins" and isinstance(selfv, SObj):
+                    selfv.fields["args"] = STuple([self.eval(a, fr) for a in node.args])
+                    return None
                 fn = static.__func__ if isinstance(static, (classmethod, staticmethod)) else static
                 args = [self.eval(a, fr) for a in node.args]
                 kwargs = {kw.arg: self.eval(kw.value, fr) for kw in node.keywords}
@@ -1863,7 +1875,12 @@ class Interp:
         if m is not None:
             return m(self, args, kwargs)
         if issubclass(cls, BaseException):
-            return SObj(cls, {"args": STuple(list(args))})
+            obj = SObj(cls, {"args": STuple(list(args))})
+            init = cls.__dict__.get("__init__")
+            if init is not None and inspect.isfunction(init) and (getattr(init, "__module__", "") or "").startswith(
+                    ("pyvcfrag_", "openapi_python_client")):
+                self.call_pyfunc(init, [obj] + list(args), kwargs)
+            return obj
         if issubclass(cls, enum.Enum):
             if len(args) == 1:
                 for mem in cls:
